@@ -36,6 +36,7 @@ type Std struct {
 	XE    *Type // imported struct, exported fields only
 	XU    *Type // imported struct with unexported fields (nameable types)
 	XO    *Type // imported struct without any exported field
+	XB    *Type // imported struct with a blank field BEFORE its unexported fields
 	XDupC *Type // flat struct T from scratch/c/dup
 	SM1   *Type // local struct with fields c/dup.T (flat, first), a/dup.T, b/dup.T
 	SM2   *Type // local struct with fields b/dup.T, c/dup.T
@@ -80,6 +81,7 @@ func NewStd(u *Universe) *Std {
 	s.XN = u.DeclareAs(ExtPlain, "Num", B("int32"))
 	s.XE = u.DeclareAs(ExtPlain, "Pub", StructOf(F("I", B("int")), F("S", B("string")), F("P", Ptr(B("float64"))), F("L", Slice(B("uint16"))), F("N", s.XN)))
 	s.XU = u.DeclareAs(ExtPlain, "Priv", StructOf(F("A", B("int")), F("b", B("string")), F("c", Ptr(B("int"))), F("d", Slice(B("int64"))), F("e", Map(B("string"), B("bool")))))
+	s.XB = u.DeclareAs(ExtPlain, "Range", StructOf(F("Name", B("string")), F("_", B("int64")), F("lo", B("int")), F("hi", B("int")), F("_", Array(2, B("byte"))), F("tags", Slice(B("string")))))
 	s.XO = u.DeclareAs(ExtPlain, "Opaque", StructOf(F("n", B("int")), F("s", B("string")), F("l", Slice(B("int")))))
 	s.XDupA = u.DeclareAs(ExtDupA, "T", StructOf(F("X", B("int")), F("Y", Slice(B("string")))))
 	s.XDupB = u.DeclareAs(ExtDupB, "T", StructOf(F("X", B("string")), F("Z", Ptr(B("bool")))))
@@ -107,7 +109,7 @@ func (s *Std) Leaves() []*Type {
 // ExtraLeaves are used by the random part only.
 func (s *Std) ExtraLeaves() []*Type {
 	return []*Type{B("int8"), B("int16"), B("int32"), B("int64"), B("uint"), B("uint16"), B("uint32"), B("uint64"), B("uintptr"),
-		B("float32"), B("complex64"), B("byte"), s.NBool, s.NU8, s.NDigest, s.NStrS, s.NIntS, s.SE, s.SEq, s.SCi, s.SCv, s.SH, s.XO, s.XDupC, s.SM1, s.SM2, s.XDupA, s.XDupB, s.XN, s.NSlice, s.NMap, s.NArr, s.NPtr}
+		B("float32"), B("complex64"), B("byte"), s.NBool, s.NU8, s.NDigest, s.NStrS, s.NIntS, s.SE, s.SEq, s.SCi, s.SCv, s.SH, s.XB, s.XO, s.XDupC, s.SM1, s.SM2, s.XDupA, s.XDupB, s.XN, s.NSlice, s.NMap, s.NArr, s.NPtr}
 }
 
 // Keys returns the value-key types for maps (pointer-free, ==-comparable).
